@@ -153,7 +153,8 @@ Judge(r, f) ==
     LET rs == Rules(r, f)
         bad == {i \in 1..Len(rs) : ~rs[i][2]}
     IN /\ \A i \in bad : PrintT(<<"REJECT", r.new.run, l, rs[i][1]>>)
-       /\ (Prop = "C08" /\ ~C08Drift(r, f)) => PrintT(<<"DRIFT", r.new.run, l, "encode lengths are not the canonical blocking">>)
+       /\ IF Prop = "C08" /\ ~C08Drift(r, f)
+          THEN PrintT(<<"DRIFT", r.new.run, l, "encode lengths are not the canonical blocking">>) ELSE TRUE
 
 Init == l = 1 /\ cur = NoRun /\ groups = <<>>
 
@@ -165,9 +166,10 @@ Next ==
               /\ cur' = [NoRun EXCEPT !.new = e]
               /\ UNCHANGED groups
               \* a run that ends at "new" (constructor refused / panicked) is judged right away
-              /\ (e.ret # "ok" /\ Prop = "C15") =>
-                    \A i \in {1, 2} : LET rs == C15Rules([NoRun EXCEPT !.new = e], [whole_frames |-> 0]) IN
-                                      rs[i][2] \/ PrintT(<<"REJECT", e.run, l, rs[i][1]>>)
+              /\ IF e.ret # "ok" /\ Prop = "C15"
+                 THEN \A i \in {1, 2} : LET rs == C15Rules([NoRun EXCEPT !.new = e], [whole_frames |-> 0]) IN
+                                        IF rs[i][2] THEN TRUE ELSE PrintT(<<"REJECT", e.run, l, rs[i][1]>>)
+                 ELSE TRUE
          [] e.ev = "write" ->
               /\ cur' = [cur EXCEPT !.units = @ + (IF e.ret = "ok" THEN e.n ELSE 0), !.werr = @ \/ e.ret = "err"]
               /\ UNCHANGED groups
